@@ -32,10 +32,10 @@ ENTRY = dict(
                 "trace the monitor counts (not generated)"),
     technique="Lean 4 proof (inductive invariants, progress measure, stuck invariants) + lock-step replay of real runs with enforced schedules",
     lean_modules=["Bpmn.Props.C02", "Bpmn.Props.C02Current"],
-    families=["c02"],
+    families=["c02", "c02obs"],
     exhaustive=False,
     multi_seed=True,
-    rule=("scenario `partial`: the start events are fired one by one with StartWith (shapes start->end, start->task->end, and `subfirst`: the first start event leads into an embedded sub-process with a start event of its own), a wait before the last one fires — completion is reported only once every start event of the PROCESS has fired (cease_before_all_starts, wait_true_before_all_starts); family c02, one process instance per case (own OS process): processes with 1..3 start events (start->end; "
+    rule=("c02obs: an observer of the instance tracer with a small buffer (0, 1, 2, 4, 6) stops reading once it has answered the last of 1..2 tasks and then calls WaitUntilComplete itself, a second waiter beside it: completion is reported to both within the bound although the observer lags, and the cease-flow trace is there once when it reads on; scenario `partial`: the start events are fired one by one with StartWith (shapes start->end, start->task->end, and `subfirst`: the first start event leads into an embedded sub-process with a start event of its own), a wait before the last one fires — completion is reported only once every start event of the PROCESS has fired (cease_before_all_starts, wait_true_before_all_starts); family c02, one process instance per case (own OS process): processes with 1..3 start events (start->end; "
           "start->task->end; start->fork->2 tasks->join->end; several starts into a parallel join / an exclusive merge "
           "->task->end) x 8 wait histories (sequential, concurrent, tiny timeout while a task is pending then repeated, "
           "calls spanning the completion) started freely (thorough: also under 3 seeded perturbations of the hook points), "
